@@ -4,6 +4,7 @@ in both orientations."""
 from __future__ import annotations
 
 import multiprocessing as mp
+import os
 import random
 from fractions import Fraction
 
@@ -157,7 +158,7 @@ def explore(chk: Check, owner: str, cross=False):
     universe = tlc.printed(res.output, "universe")
     rnd = random.Random(chk.seed)
     paths = g.tree_paths()
-    budget = (600 if quick else 5000) if cross else (1400 if quick else 12000)
+    budget = int(os.environ.get("VERIF_UNI_BUDGET") or ((600 if quick else 5000) if cross else (1400 if quick else 12000)))
     chk.exhaustive = len(paths) <= budget
     if len(paths) > budget:
         paths = rnd.sample(paths, budget)
